@@ -213,6 +213,9 @@ func obsStr(v any) string {
 
 func Tag(tag string) {}
 func Unwind(n int)   {}
+
+// UnwindAssume states the assumption that no loop forks on symbolic data more than n times.
+func UnwindAssume(n int) {}
 func NewEpoch()      {}
 
 // Protect records the full capacity of b; CheckProtected asserts it is unchanged.
